@@ -279,8 +279,9 @@ def run_property(pid, tier, seed, jobs=None, only=None):
     wall = time.time() - t0
     ev = build_evidence(mod, pid, tier, seed, insts, results, violations, unreproduced, harness_errors,
                         finding_report, active, wall)
-    os.makedirs(os.path.join(VERIF, "evidence"), exist_ok=True)
-    with open(os.path.join(VERIF, "evidence", "%s.json" % pid), "w") as f:
+    evdir = os.environ.get("VERIF_EVIDENCE_DIR") or os.path.join(VERIF, "evidence")
+    os.makedirs(evdir, exist_ok=True)
+    with open(os.path.join(evdir, "%s.json" % pid), "w") as f:
         json.dump(ev, f, indent=1, default=str)
 
     cov = ev["coverage"]
